@@ -1,6 +1,8 @@
 (* C09 — everything that creates a polynomial yields canonical, CRT-consistent residues.  Statements only. *)
 From Coq Require Import ZArith List.
 From NTT Require Import Small Samplers SamplersExec Setters HwtStore.
+From NTT Require GenSamplerEq.
+From NTT.gen Require GenLoop.
 Local Open Scope Z_scope.
 
 (* uniform: any word, any modulus > 1: canonical *)
@@ -37,3 +39,32 @@ Theorem C09_hwt_consistent : forall n pos signs, (length pos <= length signs)%na
   hwt_row n p pos signs = map (fun i => hwt_val pos signs i mod p) (seq 0 n) /\ Forall (fun v => 0 <= v < p) (hwt_row n p pos signs).
 Proof. exact hwt_row_consistent. Qed.
 Print Assumptions C09_hwt_consistent.
+
+(* THE SAMPLERS OF THE SOURCE (poly::set(ZO_dist const&), poly::set(uniform const&), translated by tools/cxxloop2coq.py on every run into
+   gen/GenLoop.v: the call of fastrandombytes becomes the random tape, this->_data an array, params<T>::P a table, every access bounds-
+   checked): for any degree n, any number m of moduli and any tape they never leave their arrays and write exactly the executable models
+   SamplersExec.set_zo / set_uniform, on which the canonicity and consistency theorems above (and the counts of C12) are stated. *)
+Theorem C09_source_set_zo : forall n m P rho tape data0, (m <= length P)%nat -> (n <= length tape)%nat -> List.Forall (fun b => 0 <= b < 256) tape ->
+  length data0 = (m * n)%nat -> Z.of_nat (m * n) < 2 ^ 62 -> (0 < n)%nat ->
+  let out := Some (List.firstn n tape, set_zo n (List.firstn m P) rho tape, Z.of_nat (m * n)) in
+  (List.Forall (fun p => 1 <= p < 2 ^ 16) (List.firstn m P) -> GenLoop.gen_set_zo_u16 (Z.of_nat n) data0 (Z.of_nat m) P rho tape = out) /\
+  (List.Forall (fun p => 1 <= p < 2 ^ 32) (List.firstn m P) -> GenLoop.gen_set_zo_u32 (Z.of_nat n) data0 (Z.of_nat m) P rho tape = out) /\
+  (List.Forall (fun p => 1 <= p < 2 ^ 64) (List.firstn m P) -> GenLoop.gen_set_zo_u64 (Z.of_nat n) data0 (Z.of_nat m) P rho tape = out).
+Proof.
+  exact (fun n m P rho tape data0 HPl Htl Ht Hd Hs Hn => conj (GenSamplerEq.source_set_zo_u16 n m P rho tape data0 HPl Htl Ht Hd Hs Hn)
+    (conj (GenSamplerEq.source_set_zo_u32 n m P rho tape data0 HPl Htl Ht Hd Hs Hn) (GenSamplerEq.source_set_zo_u64 n m P rho tape data0 HPl Htl Ht Hd Hs Hn))).
+Qed.
+Print Assumptions C09_source_set_zo.
+Theorem C09_source_set_uniform : forall n m P tape data0, (m <= length P)%nat -> List.Forall (fun b => 0 <= b < 256) tape ->
+  length data0 = (m * n)%nat -> Z.of_nat (m * n) < 2 ^ 61 -> (0 < n)%nat ->
+  (List.Forall (fun p => 1 <= p < 2 ^ 16) (List.firstn m P) -> (m * n * 2 <= length tape)%nat ->
+     GenLoop.gen_set_uniform_u16 (Z.of_nat n) data0 (Z.of_nat m) P tape = Some (set_uniform 16 n (List.firstn m P) tape)) /\
+  (List.Forall (fun p => 1 <= p < 2 ^ 32) (List.firstn m P) -> (m * n * 4 <= length tape)%nat ->
+     GenLoop.gen_set_uniform_u32 (Z.of_nat n) data0 (Z.of_nat m) P tape = Some (set_uniform 32 n (List.firstn m P) tape)) /\
+  (List.Forall (fun p => 1 <= p < 2 ^ 63) (List.firstn m P) -> (m * n * 8 <= length tape)%nat ->
+     GenLoop.gen_set_uniform_u64 (Z.of_nat n) data0 (Z.of_nat m) P tape = Some (set_uniform 64 n (List.firstn m P) tape)).
+Proof.
+  exact (fun n m P tape data0 HPl Ht Hd Hs Hn => conj (GenSamplerEq.source_set_uniform_u16 n m P tape data0 HPl Ht Hd Hs Hn)
+    (conj (GenSamplerEq.source_set_uniform_u32 n m P tape data0 HPl Ht Hd Hs Hn) (GenSamplerEq.source_set_uniform_u64 n m P tape data0 HPl Ht Hd Hs Hn))).
+Qed.
+Print Assumptions C09_source_set_uniform.
